@@ -94,6 +94,7 @@ type hist struct {
 	failOp   int
 	reused   bool // some create after a removal got a pooled node back
 	removals map[string]int
+	adds     map[string]int // AddChild calls by shape of the parent's child list
 	maxLive  int
 }
 
@@ -101,7 +102,7 @@ func newHist(caching bool) *hist {
 	return &hist{caching: caching, lab: map[*idr.Node]int{}, ptr: map[int]*idr.Node{}, owner: map[*idr.Node]int{},
 		released: map[*idr.Node]bool{}, want: map[int]opDesc{}, kids: map[int][]int{}, parent: map[int]int{},
 		gen: map[*idr.Node]int{}, curID: map[*idr.Node]int64{}, curGen: map[*idr.Node]int{}, idSeen: map[int64]bool{},
-		removals: map[string]int{}}
+		removals: map[string]int{}, adds: map[string]int{}}
 }
 
 func (h *hist) failf(f string, a ...interface{}) {
@@ -290,6 +291,11 @@ func (h *hist) exec(o opDesc, checkpoint bool) {
 				h.roots = append(h.roots[:i:i], h.roots[i+1:]...)
 				break
 			}
+		}
+		if len(h.kids[o.P]) == 0 {
+			h.adds["parent-without-children"]++
+		} else {
+			h.adds["parent-with-children"]++
 		}
 		h.kids[o.P] = append(h.kids[o.P], o.N)
 		h.parent[o.N] = o.P
